@@ -75,6 +75,11 @@ claim("C15", "model_checking",
       "Driver.tla executes a plan (sequence of run/srun/irun calls incl. zero-length ones) step by step; TLC checks for every plan and observer-interval set that the call schedule equals Expected(interval, total), the header is written once before any row, exactly the requested steps are performed and the outcome depends on the total only. The enumerated plans with TLC's expected schedules are executed on real drivers with recording observers, a default logger and a trajectory on in-memory files, and compared with the schedule and byte-for-byte with the single run of the same seed.",
       "Trusted: TLC, in-memory text files. Bound: total <= 4 steps (quick) / 6 (thorough), <= 3 calls per plan; quick replays every 5th enumerated case.", "5 C15")
 
+claim("C16", "fault_enumeration",
+      "TLC on the observer/crash process (Files.tla) + TLC crash enumeration over operation logs recorded from the real observers (Files_Trace.tla) + byte-level crash contents through the real readers + real forked processes dying before chosen file operations",
+      "Every crash point between two consecutive file operations of every observer call is enumerated, with every prefix of the unflushed buffer as a surviving content: abstractly in Files.tla (Crash enabled in every state, modes 'a'/'w', documents growing and shrinking), on operation logs recorded from Logger / TrajectoryObserver / RestartObserver of grand-canonical runs (TLC applies the file semantics and judges all survivors in every state and the disk after every call), as bytes (torn chunks included) through the log-line check, ase.io.read and read_json, and with real processes on real files killed without flushing.",
+      "Trusted: the file-semantics model (bound to CPython by comparing the model's disk with the real file after every run, and by the real-kill layer), ASE's readers. Crash model: the OS persists what was flushed or auto-flushed; no reordering, no torn sectors below the file API.", "5 C16")
+
 NOT_YET = "check not built yet in this round (planned in DESIGN.md section 5); will be claimed once its spec and conformance harness exist"
 
 
